@@ -481,7 +481,13 @@ def phase_events(mod, cli_node, has_seed_dest, family_names):
                         g = guard_kind(guards[-1], has_seed_dest) if guards else ("always", "")
                         evs.append(("headerSeed", g, src(st.value)))
                     elif k == "command line":
-                        evs.append(("headerCmdline",))
+                        # "<tool> " + " ".join(argv[1:])
+                        v = st.value
+                        pre = "?"
+                        if isinstance(v, ast.BinOp) and isinstance(v.op, ast.Add) and isinstance(v.left, ast.Constant) \
+                                and isinstance(v.left.value, str) and src(v.right).replace('"', "'") == "' '.join(argv[1:])":
+                            pre = v.left.value
+                        evs.append(("headerCmdline", pre))
             else:
                 expr_events(st, guards)
     walk(cli_node.body, [])
@@ -957,7 +963,7 @@ inductive Ev where
   | transforms (call : String)               -- (the loop over) transform_cnf
   | shuffle                                  -- Shuffle(F, ...)
   | headerSeed (g : Guard) (value : String)  -- X.header['random seed'] = ...
-  | headerCmdline                            -- X.header['command line'] = ...
+  | headerCmdline (pre : String)             -- X.header['command line'] = pre + " ".join(argv[1:])   ("?" = other)
   | output (how : String)                    -- to_file / to_dimacs / to_opb / to_latex
   deriving Repr, DecidableEq
 
@@ -1018,7 +1024,7 @@ def lev(e):
         return "(.seed {} {})".format(lguard(e[1]), lguard(e[2]))
     if tag == "headerSeed":
         return "(.headerSeed {} {})".format(lguard(e[1]), lstr(e[2]))
-    if tag in ("shuffle", "headerCmdline"):
+    if tag == "shuffle":
         return "." + tag
     return "(.{} {})".format(tag, lstr(e[1]))
 
